@@ -22,5 +22,6 @@ var specs = map[string]propSpec{
 	"C10": {level: "model_checking", budgetQ: 4 * time.Minute, budgetT: 40 * time.Minute},
 	"C17": {level: "model_checking", budgetQ: 4 * time.Minute, budgetT: 40 * time.Minute},
 	"C18": {level: "model_checking", budgetQ: 4 * time.Minute, budgetT: 40 * time.Minute},
+	"GOLDENGEN": {level: "model_checking", workers: 1},
 	"C03": {level: "model_checking", budgetQ: 4 * time.Minute, budgetT: 40 * time.Minute},
 }
